@@ -1650,7 +1650,17 @@ static void MPSreadCols(MPSInput& mps, const LPRowSetBase<R>& rset, const NameSe
          if((idx = rnames.number(mps.field2())) < 0)
             mps.entryIgnored("Column", mps.field1(), "row", mps.field2());
          else if(val != 0.0)
+         {
+            // a second entry for the same row would give the column vector a duplicate index
+            if(vec.pos(idx) >= 0)
+            {
+               SPX_MSG_ERROR(std::cerr << "ERROR in COLUMNS: duplicate entry for row " << mps.field2() << " in column " <<
+                             mps.field1() << std::endl;)
+               break;
+            }
+
             vec.add(idx, val);
+         }
       }
 
       if(mps.field5() != nullptr)
@@ -1666,7 +1676,16 @@ static void MPSreadCols(MPSInput& mps, const LPRowSetBase<R>& rset, const NameSe
             if((idx = rnames.number(mps.field4())) < 0)
                mps.entryIgnored("Column", mps.field1(), "row", mps.field4());
             else if(val != 0.0)
+            {
+               if(vec.pos(idx) >= 0)
+               {
+                  SPX_MSG_ERROR(std::cerr << "ERROR in COLUMNS: duplicate entry for row " << mps.field4() << " in column " <<
+                                mps.field1() << std::endl;)
+                  break;
+               }
+
                vec.add(idx, val);
+            }
          }
       }
    }
